@@ -128,6 +128,9 @@ def _replay_part(job):
             assigns = [{u: c for u in used} for c in names] if used else [{}]
         else:
             assigns = [dict(zip(used, p)) for p in third]
+            for d in assigns:
+                for u in used[2:]:
+                    d[u] = d[used[1]]      # further labels: the second class
         # padded variants: first label is a symbol of a given length
         for pad in PADS:
             for c in (names if len(used) > 1 else ['sym']):
